@@ -540,7 +540,7 @@ impl Default for GenOpts {
 }
 
 pub fn gen_input(t: &mut Tape, o: &GenOpts) -> Vec<usize> {
-    if t.bool() {
+    if t.chance(2, 3) {
         vec![t.usize(1, o.max_c), t.usize(1, o.max_hw), t.usize(1, o.max_hw)]
     } else {
         vec![t.usize(1, 8)]
@@ -728,4 +728,30 @@ pub fn layer_forward(l: &Layer, x: &Tensor) -> (Tensor, Tensor) {
             (pre, post)
         }
     }
+}
+
+/// Black-box parse of the `in -> out` line that the network's Display text announces for every
+/// top-level layer.
+pub fn announced_shapes(net: &Network) -> Result<Vec<(Vec<usize>, Vec<usize>)>, String> {
+    let text = format!("{}", net);
+    let mut out = Vec::new();
+    let mut want_next = false;
+    for line in text.lines() {
+        let tabs = line.chars().take_while(|c| *c == '\t').count();
+        let body = line.trim_start_matches('\t');
+        if tabs == 2 && body.split(':').next().map(|s| s.chars().all(|c| c.is_ascii_digit()) && !s.is_empty()).unwrap_or(false) && body.contains(": ") {
+            want_next = true;
+            continue;
+        }
+        if want_next && tabs == 3 && body.contains(" -> ") {
+            let parts: Vec<&str> = body.split(" -> ").collect();
+            let parse = |s: &str| -> Result<Vec<usize>, String> { s.trim().split('x').map(|p| p.parse::<usize>().map_err(|e| format!("cannot parse shape '{}': {}", s, e))).collect() };
+            out.push((parse(parts[0])?, parse(parts[1])?));
+            want_next = false;
+        }
+    }
+    if out.len() != net.layers.len() {
+        return Err(format!("parsed {} announced shapes for {} layers from:\n{}", out.len(), net.layers.len(), text));
+    }
+    Ok(out)
 }
